@@ -3873,6 +3873,13 @@ def _check_dependents_are_predicates(
         if not allow_reduction:
             if isinstance(e, (ApplyConcatApply, TreeReduce, ShuffleReduce)):
                 return False
+            if not isinstance(e, Elemwise) and any(
+                x._name == expr._name for x in e.walk()
+            ):
+                # Anything that is not computed row by row from expr (a
+                # quantile, a cumulative or shifted value, ...) changes when
+                # the rows of expr change
+                return False
 
         allowed_expressions.add(e._name)
         stack.extend(e.dependencies())
